@@ -1,4 +1,5 @@
 import RxModel.Lemmas.Local
+import RxModel.Heap
 /-!
 # C09 — scan/reduce algebra (per key lifetime; the per-key lifting is the subject of C02)
 
@@ -175,5 +176,238 @@ theorem C09_plain {α γ} (g : γ → α → γ) (seed : γ) (reduce : Bool) (te
 example : (scanOp (fun (a x : Nat) => Except.ok (a + x)) 0 false none).outL [1, 2, 3] = [.item 1, .item 3, .item 6] := by decide
 example : (scanOp (fun (a x : Nat) => if x = 2 then Except.error "ValueError" else .ok (a + x)) 0 false none).outL [1, 2, 3]
     = [.item 1, .err "ValueError", .item 4] := by decide
+
+/-! ## the seed is never shared: reference semantics with a fresh copy = value semantics -/
+
+/-- the accumulator of the heap model as a pure function on values -/
+def appendAcc {α} (acc : List α) (x : α) : Except Err (List α) := .ok (acc ++ [x])
+
+/-- one key: no key / NOTSET on both sides, or a reference (never the seed object at address 0)
+to an object that holds exactly the value -/
+def PtRel {α} (h : List (List α)) : Option (Option Nat) → Option (Option (List α)) → Prop
+  | none, none => True
+  | some none, some none => True
+  | some (some a), some (some v) => 0 < a ∧ a < h.length ∧ h.getD a [] = v
+  | _, _ => False
+
+/-- heap state vs keyed value state: key by key `PtRel`, the seed object is intact, and no two keys
+hold the same reference -/
+structure HRel {α} (seed : List α) (st : HeapSt α) (rs : Key → Option (Option (List α))) : Prop where
+  pos : 0 < st.heap.length
+  seed0 : st.heap.getD 0 [] = seed
+  pt : ∀ k, PtRel st.heap (st.slot k) (rs k)
+  inj : ∀ k k' a, st.slot k = some (some a) → st.slot k' = some (some a) → k = k'
+
+theorem getD_set_self {α} (h : List (List α)) (a : Nat) (v : List α) (ha : a < h.length) : (h.set a v).getD a [] = v := by
+  simp [List.getD_eq_getElem?_getD, ha]
+
+theorem getD_set_ne {α} (h : List (List α)) (a b : Nat) (v : List α) (hab : a ≠ b) : (h.set a v).getD b [] = h.getD b [] := by
+  simp [List.getD_eq_getElem?_getD, List.getElem?_set_ne hab]
+
+theorem getD_append_left {α} (h : List (List α)) (v : List α) (b : Nat) (hb : b < h.length) : (h ++ [v]).getD b [] = h.getD b [] := by
+  simp [List.getD_eq_getElem?_getD, List.getElem?_append_left hb]
+
+/-- the relation of a key survives a heap change that keeps the object it refers to -/
+theorem ptRel_transfer {α} (h h' : List (List α)) (s : Option (Option Nat)) (r : Option (Option (List α)))
+    (hlen : h.length ≤ h'.length) (hsame : ∀ a, s = some (some a) → a < h.length → h'.getD a [] = h.getD a [])
+    (hp : PtRel h s r) : PtRel h' s r := by
+  cases s with
+  | none => cases r <;> simpa [PtRel] using hp
+  | some sa =>
+    cases sa with
+    | none => cases r with
+      | none => simpa [PtRel] using hp
+      | some v => cases v <;> simpa [PtRel] using hp
+    | some a => cases r with
+      | none => simpa [PtRel] using hp
+      | some v => cases v with
+        | none => simpa [PtRel] using hp
+        | some w =>
+          simp only [PtRel] at hp ⊢
+          have h2 := hp.2.1
+          exact ⟨hp.1, by omega, by rw [hsame a rfl hp.2.1]; exact hp.2.2⟩
+
+theorem inj_upd_fresh (slot : Key → Option (Option Nat)) (k : Key) (v : Option (Option Nat))
+    (hinj : ∀ k k' a, slot k = some (some a) → slot k' = some (some a) → k = k')
+    (hfresh : ∀ a, v = some (some a) → ∀ k', k' ≠ k → slot k' ≠ some (some a)) :
+    ∀ k1 k2 a, upd slot k v k1 = some (some a) → upd slot k v k2 = some (some a) → k1 = k2 := by
+  intro k1 k2 a h1 h2
+  by_cases hk1 : k1 = k
+  · by_cases hk2 : k2 = k
+    · rw [hk1, hk2]
+    · subst hk1
+      simp only [upd, if_true, hk2, if_false] at h1 h2
+      exact absurd h2 (hfresh a h1 k2 hk2)
+  · by_cases hk2 : k2 = k
+    · subst hk2
+      simp only [upd, if_true, hk1, if_false] at h1 h2
+      exact absurd h1 (hfresh a h2 k1 hk1)
+    · simp only [upd, hk1, hk2, if_false] at h1 h2
+      exact hinj k1 k2 a h1 h2
+
+/-- **seed isolation.**  With `copy.deepcopy(seed)` / `seed()` per key lifetime, `scan` over
+mutable accumulator objects (in-place `append`) emits, on EVERY event trace — any keys, any
+interleaving, keys completed and created again — exactly what the value semantics emits
+(`scanOp` with the pure accumulator `acc ++ [x]`): mutating the accumulator of one key never
+changes what another key, a later lifetime, or the seed holds. -/
+theorem C09_seed_isolation {α} (seed : List α) :
+    ∀ (t : List (Ev α)) (st : HeapSt α) (rs : Key → Option (Option (List α))), HRel seed st rs →
+      runSteps (heapStep true 0) st t = runSteps (refStep (scanOp appendAcc seed false none)) rs t := by
+  intro t
+  induction t with
+  | nil => intros; rfl
+  | cons e t ih =>
+    intro st rs hrel
+    obtain ⟨hpos, hseed, hpt, hinj⟩ := hrel
+    cases e with
+    | fatal x =>
+      simp only [runSteps, heapStep, refStep]
+      rw [ih st rs ⟨hpos, hseed, hpt, hinj⟩]
+    | create k =>
+      simp only [runSteps, heapStep, refStep]
+      congr 1
+      apply ih
+      refine ⟨hpos, hseed, ?_, inj_upd_fresh st.slot k (some none) hinj (fun a h => by simp at h)⟩
+      intro k'
+      by_cases hk : k' = k
+      · subst hk; simp [upd, scanOp, PtRel]
+      · have := hpt k'; simpa [upd, hk] using this
+    | err k x =>
+      have hk := hpt k
+      cases hs : st.slot k with
+      | none =>
+        cases hr : rs k with
+        | none =>
+          simp only [runSteps, heapStep, refStep, hs, hr]
+          rw [ih st rs ⟨hpos, hseed, hpt, hinj⟩]
+        | some v => simp [hs, hr, PtRel] at hk
+      | some sa =>
+        cases hr : rs k with
+        | none => cases sa <;> simp [hs, hr, PtRel] at hk
+        | some v =>
+          simp only [runSteps, heapStep, refStep, hs, hr, scanOp, List.map_cons, List.map_nil, liftOut]
+          congr 1
+          apply ih
+          refine ⟨hpos, hseed, ?_, hinj⟩
+          intro k'
+          by_cases hk' : k' = k
+          · subst hk'; have := hpt k'; simpa [upd, hr] using this
+          · have := hpt k'; simpa [upd, hk'] using this
+    | done k =>
+      have hk := hpt k
+      cases hs : st.slot k with
+      | none =>
+        cases hr : rs k with
+        | none =>
+          simp only [runSteps, heapStep, refStep, hs, hr]
+          rw [ih st rs ⟨hpos, hseed, hpt, hinj⟩]
+        | some v => simp [hs, hr, PtRel] at hk
+      | some sa =>
+        cases hr : rs k with
+        | none => cases sa <;> simp [hs, hr, PtRel] at hk
+        | some v =>
+          simp only [runSteps, heapStep, refStep, hs, hr, scanOp, scanFin, List.map_nil, List.nil_append]
+          congr 1
+          apply ih
+          refine ⟨hpos, hseed, ?_, inj_upd_fresh st.slot k none hinj (fun a h => by simp at h)⟩
+          intro k'
+          by_cases hk' : k' = k
+          · subst hk'; simp [upd, PtRel]
+          · have := hpt k'; simpa [upd, hk'] using this
+    | next k x =>
+      have hk := hpt k
+      cases hs : st.slot k with
+      | none =>
+        cases hr : rs k with
+        | none =>
+          simp only [runSteps, heapStep, refStep, hs, hr]
+          rw [ih st rs ⟨hpos, hseed, hpt, hinj⟩]
+        | some v => simp [hs, hr, PtRel] at hk
+      | some sa =>
+        cases sa with
+        | none =>
+          -- first item of the lifetime: a fresh copy of the seed
+          cases hr : rs k with
+          | none => simp [hs, hr, PtRel] at hk
+          | some v =>
+            cases v with
+            | some v' => simp [hs, hr, PtRel] at hk
+            | none =>
+              have hlen' : (appendAt (st.heap ++ [st.heap.getD 0 []]) st.heap.length x).length = st.heap.length + 1 := by
+                unfold appendAt; simp
+              have hnew : (appendAt (st.heap ++ [st.heap.getD 0 []]) st.heap.length x).getD st.heap.length [] = seed ++ [x] := by
+                unfold appendAt
+                rw [getD_set_self _ _ _ (by simp)]
+                have : (st.heap ++ [st.heap.getD 0 []]).getD st.heap.length [] = st.heap.getD 0 [] := by
+                  simp [List.getD_eq_getElem?_getD]
+                rw [this, hseed]
+              have hold : ∀ b, b < st.heap.length →
+                  (appendAt (st.heap ++ [st.heap.getD 0 []]) st.heap.length x).getD b [] = st.heap.getD b [] := by
+                intro b hb
+                unfold appendAt
+                rw [getD_set_ne _ _ _ _ (by omega), getD_append_left _ _ _ hb]
+              simp only [runSteps, heapStep, refStep, hs, hr, takeSeed, if_true, scanOp, scanNext, appendAcc,
+                Option.getD_none, Bool.false_eq_true, if_false, List.map_cons, List.map_nil, liftOut, hnew]
+              congr 1
+              apply ih
+              refine ⟨by show 0 < (appendAt _ _ _).length; rw [hlen']; omega, by show (appendAt _ _ _).getD 0 [] = seed; rw [hold 0 hpos]; exact hseed, ?_, ?_⟩
+              · intro k'
+                by_cases hk' : k' = k
+                · subst hk'
+                  simp only [upd, if_true, PtRel]
+                  exact ⟨hpos, by have := hlen'; omega, hnew⟩
+                · simp only [upd, hk', if_false]
+                  exact ptRel_transfer st.heap _ _ _ (by have := hlen'; omega) (fun a _ ha => hold a ha) (hpt k')
+              · apply inj_upd_fresh st.slot k _ hinj
+                intro a ha k' hk' hs'
+                simp only [Option.some.injEq] at ha
+                subst ha
+                have := hpt k'
+                rw [hs'] at this
+                cases hr' : rs k' with
+                | none => simp [hr', PtRel] at this
+                | some v2 => cases v2 <;> simp [hr', PtRel] at this
+        | some a =>
+          cases hr : rs k with
+          | none => simp [hs, hr, PtRel] at hk
+          | some v =>
+            cases v with
+            | none => simp [hs, hr, PtRel] at hk
+            | some w =>
+              simp only [hs, hr, PtRel] at hk
+              obtain ⟨a1, a2, a3⟩ := hk
+              have hlen' : (appendAt st.heap a x).length = st.heap.length := by unfold appendAt; simp
+              have hnew : (appendAt st.heap a x).getD a [] = w ++ [x] := by
+                unfold appendAt; rw [getD_set_self _ _ _ a2, a3]
+              have hold : ∀ b, b ≠ a → (appendAt st.heap a x).getD b [] = st.heap.getD b [] := by
+                intro b hb
+                unfold appendAt
+                rw [getD_set_ne _ _ _ _ (fun h => hb h.symm)]
+              simp only [runSteps, heapStep, refStep, hs, hr, scanOp, scanNext, appendAcc, Option.getD_some,
+                Bool.false_eq_true, if_false, List.map_cons, List.map_nil, liftOut, hnew]
+              congr 1
+              apply ih
+              refine ⟨by show 0 < (appendAt _ _ _).length; rw [hlen']; exact hpos, by show (appendAt _ _ _).getD 0 [] = seed; rw [hold 0 (by omega)]; exact hseed, ?_, hinj⟩
+              intro k'
+              by_cases hk' : k' = k
+              · subst hk'
+                simp only [hs, upd, if_true, PtRel]
+                exact ⟨a1, by have := hlen'; omega, hnew⟩
+              · simp only [upd, hk', if_false]
+                refine ptRel_transfer st.heap _ _ _ (by have := hlen'; omega) ?_ (hpt k')
+                intro a' ha' _
+                exact hold a' (fun h => hk' (hinj k' k a (by rw [ha', h]) hs))
+
+/-- from subscription: the heap holds the seed object only -/
+theorem C09_seed_isolation_run {α} (seed : List α) (t : List (Ev α)) :
+    runSteps (heapStep true 0) (heapInit seed) t = (refLift (scanOp appendAcc seed false none)).run t :=
+  C09_seed_isolation seed t (heapInit seed) (fun _ => none)
+    ⟨by simp [heapInit], by simp [heapInit], fun _ => by simp [heapInit, PtRel], fun _ _ _ h => by simp [heapInit] at h⟩
+
+/-- and the defect "hand the seed object itself to the accumulator" breaks it: the second key sees
+the first key's item -/
+example : runSteps (heapStep false 0) (heapInit ([] : List Nat)) [.create [0], .create [1], .next [0] 7, .next [1] 8] ≠
+    (refLift (scanOp appendAcc ([] : List Nat) false none)).run [.create [0], .create [1], .next [0] 7, .next [1] 8] := by
+  decide
 
 end Rx
